@@ -639,6 +639,7 @@ void bufr_set_descriptor_afd( BufrDescriptor *bc, LinkedList *af_list )
       afd = (AF_Definition *)node->data;
       bc->afd->defs[i].sig = afd->sig;
       bc->afd->defs[i].nbits = afd->nbits;
+      i++;
       node = lst_nextnode( node );
       }
 
